@@ -13,10 +13,10 @@ Open Scope Z_scope.
    with collection off; with collection off no metric call is made; and a session started in
    ANY Metrics state computes the collection-off output. *)
 Theorem C15_transparent :
-  (forall lv r da db z a b, fst (run true r da db lv z a b) = fst (run false r da db lv z a b))
-  /\ (forall lv r da db z a b, snd (run false r da db lv z a b) = [])
+  (forall lv r wt da db z a b, fst (run true r wt da db lv z a b) = fst (run false r wt da db lv z a b))
+  /\ (forall lv r wt da db z a b, snd (run false r wt da db lv z a b) = [])
   /\ (forall m s, fst (fst (run_session m s))
-                 = fst (run false 0 (s_da s) (s_db s) (s_lv s) (z_init (s_lv s)) (s_a s) (s_b s))).
+                 = fst (run false 0 (s_wt s) (s_da s) (s_db s) (s_lv s) (z_init (s_lv s)) (s_a s) (s_b s))).
 Proof. exact (conj run_transparent (conj run_off_silent session_transparent)). Qed.
 Print Assumptions C15_transparent.
 
@@ -26,15 +26,15 @@ Print Assumptions C15_transparent.
    recursive sum over the iteration space (non-empty stored elements of a compressed rank, every
    coordinate of an uncompressed one; set intersection where both operands carry the variable).
    All integer values, any operand defaults. *)
-Theorem C15_counts_mul_update : forall da db lv r z a b,
+Theorem C15_counts_mul_update : forall wt da db lv r z a b,
   forallb (fun l => la l || lb l) lv = true -> op_ok la lv a -> op_ok lb lv b ->
-  cnt (is_cnt 0) (snd (run true r da db lv z a b)) = spec_leafs da db lv a b
-  /\ cnt (is_cnt 2) (snd (run true r da db lv z a b)) = spec_leafs da db lv a b
+  cnt (is_cnt 0) (snd (run true r wt da db lv z a b)) = spec_leafs da db lv a b
+  /\ cnt (is_cnt 2) (snd (run true r wt da db lv z a b)) = spec_leafs da db lv a b
   /\ spec_leafs da db lv a b = Z.of_nat (length (spec_trace da db lv a b)).
 Proof.
-  intros da db lv r z a b H Ha Hb.
-  exact (conj (run_cnt_leafs 0 (or_introl eq_refl) da db lv r z a b H Ha Hb)
-              (conj (run_cnt_leafs 2 (or_intror eq_refl) da db lv r z a b H Ha Hb)
+  intros wt da db lv r z a b H Ha Hb.
+  exact (conj (run_cnt_leafs 0 (or_introl eq_refl) wt da db lv r z a b H Ha Hb)
+              (conj (run_cnt_leafs 2 (or_intror eq_refl) wt da db lv r z a b H Ha Hb)
                     (spec_leafs_trace da db lv a b))).
 Qed.
 Print Assumptions C15_counts_mul_update.
@@ -52,25 +52,25 @@ Print Assumptions C15_counts_add_rule.
    any well-shaped output tree z: the number of incCount(payload_add) calls equals the number of
    executions `z_ref += v`, taken in program order from spec_trace, at which the reference map
    (output point -> current value, initially the values stored in z) is non-zero. *)
-Theorem C15_counts_add : forall da db lv r z a b,
+Theorem C15_counts_add : forall wt da db lv r z a b,
   forallb (fun l => la l || lb l) lv = true -> op_ok la lv a -> op_ok lb lv b ->
   zok (cntb lz lv) z ->
-  cnt (is_cnt 1) (snd (run true r da db lv z a b)) = ref_adds (zval z) (spec_trace da db lv a b).
+  cnt (is_cnt 1) (snd (run true r wt da db lv z a b)) = ref_adds (zval z) (spec_trace da db lv a b).
 Proof.
-  intros da db lv r z a b H Ha Hb Hz. exact (proj2 (proj2 (run_ref da db lv r z a b H Ha Hb Hz))).
+  intros wt da db lv r z a b H Ha Hb Hz. exact (proj2 (proj2 (run_ref wt da db lv r z a b H Ha Hb Hz))).
 Qed.
 Print Assumptions C15_counts_add.
 
 (* ---- and the output tree holds, at every point, the final value of that reference map (the
    refinement the add count rests on; well-shapedness of the tree is preserved) *)
-Theorem C15_output_is_reference_map : forall da db lv r z a b,
+Theorem C15_output_is_reference_map : forall wt da db lv r z a b,
   forallb (fun l => la l || lb l) lv = true -> op_ok la lv a -> op_ok lb lv b ->
   zok (cntb lz lv) z ->
-  zok (cntb lz lv) (fst (run true r da db lv z a b))
-  /\ forall p, zval (fst (run true r da db lv z a b)) p
+  zok (cntb lz lv) (fst (run true r wt da db lv z a b))
+  /\ forall p, zval (fst (run true r wt da db lv z a b)) p
                = ref_final (zval z) (spec_trace da db lv a b) p.
 Proof.
-  intros da db lv r z a b H Ha Hb Hz. destruct (run_ref da db lv r z a b H Ha Hb Hz) as [H1 [H2 _]].
+  intros wt da db lv r z a b H Ha Hb Hz. destruct (run_ref wt da db lv r z a b H Ha Hb Hz) as [H1 [H2 _]].
   exact (conj H1 H2).
 Qed.
 Print Assumptions C15_output_is_reference_map.
@@ -79,11 +79,11 @@ Print Assumptions C15_output_is_reference_map.
    executed at depth q - r (0 for ranks outside the nest); and a rank's rows are only produced
    after the rank was registered (all inputs). *)
 Theorem C15_iters :
-  (forall da db lv r z a b q,
+  (forall wt da db lv r z a b q,
      forallb (fun l => la l || lb l) lv = true -> op_ok la lv a -> op_ok lb lv b ->
-     cnt (is_use q) (snd (run true r da db lv z a b))
+     cnt (is_use q) (snd (run true r wt da db lv z a b))
      = if Z.ltb q r then 0 else spec_bodies (Z.to_nat (q - r)) da db lv a b)
-  /\ (forall da db lv r z a b q, reg_first q (snd (run true r da db lv z a b))).
+  /\ (forall wt da db lv r z a b q, reg_first q (snd (run true r wt da db lv z a b))).
 Proof. exact (conj run_cnt_use run_reg_first). Qed.
 Print Assumptions C15_iters.
 
@@ -126,11 +126,62 @@ Theorem C15_intersection_is_set_intersection :
 Proof. exact (conj and_merge_spec and_spec_coords). Qed.
 Print Assumptions C15_intersection_is_set_intersection.
 
-(* ---- the faithful model satisfies the oracle on every well-formed case *)
+(* ---- the faithful model satisfies the oracle on every well-formed case outside the region of
+   the known finding F-C15-write-trace-insert-no-shape *)
 Theorem C15_model_meets_spec : forall c,
-  c15_wf c = true -> holds c15_checker c (model c15_checker c) = true.
+  c15_wf c = true -> region c15_checker c = 0 -> holds c15_checker c (model c15_checker c) = true.
 Proof. exact model_meets_spec. Qed.
 Print Assumptions C15_model_meets_spec.
+
+(* ---- the region.  Full statement of the transparency clause: for every set of registered
+   traces the session's kernel completes with the collection-off output.  It fails: with
+   (rank, "populate_write_0") traced on an output without a declared shape, a populate that
+   inserts a new, kept element before the output fiber's last coordinate runs into
+   `assert insert_pos is not None` (iterators.py __lshift__), while the run with collection off
+   completes.  region = 1 exactly when the model's run emits EFail; there the observation is
+   the error value and the oracle is false; the region is empty when the output has a declared
+   shape or no populate_write_0 trace is registered (so write-traced populates into shaped
+   outputs, and untraced ones, all hold). *)
+Theorem C15_write_trace_region :
+  (forall c, s_end (k_final c) = true -> region c15_checker c = 1 ->
+     model c15_checker c = Verr 3 /\ holds c15_checker c (model c15_checker c) = false)
+  /\ (forall c, s_zshape (k_final c) = true
+               \/ forallb (fun k => negb (Z.eqb (snd k) 4)) (s_traces (k_final c)) = true ->
+               region c15_checker c = 0).
+Proof. exact (conj model_region1 no_write_trace_region0). Qed.
+Print Assumptions C15_write_trace_region.
+
+(* witness: Z[m,n] += A[m,k] * B[k,n] in loop order m, k, n; k = 0 writes Z[0,2], k = 1 then
+   offers n = 0 < 2, absent from Z[0,:].  With populate_write_0 traced on rank 2 and no declared
+   output shape the session dies with AssertionError; the same kernel with collection off
+   yields Z[0,:] = {0: 3, 2: 2}; the same session with a declared shape, or with an append
+   instead of an insertion, holds. *)
+Definition wt_s (zshape : bool) (b : tree) : session :=
+  {| s_lv := [Build_level true true false false false 1; Build_level false true true false false 2;
+              Build_level true false true false false 3];
+     s_a := Node [(0, Node [(0, Leaf 1); (1, Leaf 1)])]; s_b := b; s_da := 0; s_db := 0;
+     s_traces := [(2, 4)]; s_zshape := zshape; s_end := true |}.
+Definition wt_insert : tree := Node [(0, Node [(2, Leaf 2)]); (1, Node [(0, Leaf 3)])].
+Definition wt_append : tree := Node [(0, Node [(0, Leaf 2)]); (1, Node [(2, Leaf 3)])].
+Definition wt_case (zshape : bool) (b : tree) : c15_case := {| k_prior := []; k_final := wt_s zshape b |}.
+
+Theorem C15_write_trace_refuted :
+  exists c, c15_wf c = true
+    /\ region c15_checker c = 1
+    /\ model c15_checker c = Verr 3
+    /\ holds c15_checker c (model c15_checker c) = false
+    /\ fst (run false 0 (s_wt (k_final c)) 0 0 (s_lv (k_final c)) (z_init (s_lv (k_final c)))
+                 (s_a (k_final c)) (s_b (k_final c)))
+       = Node [(0, Node [(0, Leaf 3); (2, Leaf 2)])].
+Proof. exists (wt_case false wt_insert). repeat split; vm_compute; reflexivity. Qed.
+Print Assumptions C15_write_trace_refuted.
+
+Example C15_write_trace_holds :
+  region c15_checker (wt_case true wt_insert) = 0
+  /\ holds c15_checker (wt_case true wt_insert) (model c15_checker (wt_case true wt_insert)) = true
+  /\ region c15_checker (wt_case false wt_append) = 0
+  /\ holds c15_checker (wt_case false wt_append) (model c15_checker (wt_case false wt_append)) = true.
+Proof. repeat split; vm_compute; reflexivity. Qed.
 
 (* non-vacuity: a 2x3 by 3x2 matrix product (loop order m, k, n) with signed values, B's K rank
    uncompressed, A's default 3 with an explicit 0, after an aborted session that traced the same
